@@ -57,17 +57,21 @@ fn main() {
         let rel = Path::new(DEBUG_NAME).join(BREAKPAD_ID);
         let syms = root.join("syms");
         std::fs::create_dir_all(syms.join(&rel)).unwrap();
-        std::fs::write(syms.join(&rel).join("big.sym"), make_sym(n)).unwrap();
-        let out = rt.block_on(async {
-            let refdir = root.join("ref");
-            let cfg = SymbolManagerConfig::default().breakpad_symbol_dir(&syms).breakpad_symindex_cache_dir(&refdir);
-            if !load(cfg).await {
-                return "REFERENCE-FAILED".to_string();
-            }
-            let expected = match std::fs::read(refdir.join(&rel).join("big.symindex")) {
+        let sym_bytes = make_sym(n);
+        std::fs::write(syms.join(&rel).join("big.sym"), &sym_bytes).unwrap();
+        // the index the .sym file has, made directly with samply-symbols' index creator (not through wholesym's file writing)
+        let expected: Vec<u8> = {
+            let mut c = samply_symbols::BreakpadIndexCreator::new();
+            c.consume(&sym_bytes);
+            match c.finish() {
                 Ok(b) => b,
-                Err(_) => return "REFERENCE-MISSING".to_string(),
-            };
+                Err(_) => {
+                    println!("REFERENCE-FAILED");
+                    continue;
+                }
+            }
+        };
+        let out = rt.block_on(async {
             if limit == 0 {
                 limit = expected.len() as u64 - 10;
             }
